@@ -412,6 +412,104 @@ Proof.
   exact (fill_inline_located T surf P (@M6.is_nil R) teqb tr_surf inv sense sense_tr teqb_sound
            fuel cf ifd ifg num den sd s3 rs cells4 Hfd Hcd Hnod Hfill Hinl).
 Qed.
+
+(* ---- every element of every lattice cell, in the fully developed table --------------------------- *)
+Notation Den := (Den T surf P sense).
+Notation nonnil := (fun e : @M6.new_elem R => M6.is_nil (M6.ne_trnsf e) = false).
+
+(* the lattice cells to develop are distinct, present, and their elements carry transformations *)
+Definition lats_ok (s : state) (lats : list (Z * list (@M6.new_elem R))) : Prop :=
+  NoDup (map fst lats) /\
+  forall lk elems, In (lk, elems) lats ->
+    (exists lcl, dget lk (s_cells s) = Some lcl) /\ Forall nonnil elems.
+
+Lemma lat_head_step : forall fuel lk elems r (s : state) ks s1,
+  ready s -> lats_ok s ((lk, elems) :: r) ->
+  L6.develop_state surf teqb tr_surf fuel lk elems s = Ok (ks, s1) ->
+  ready (del_cell T surf s1 lk) /\ lats_ok (del_cell T surf s1 lk) r /\
+  extends T surf s s1 /\ all_ref_free T surf s1.
+Proof.
+  intros fuel lk elems r s ks s1 Hr [Hnd Hall] E.
+  destruct (Hall lk elems (or_introl eq_refl)) as ((lcl & Hlcl) & Hnn).
+  destruct Hr as (Hf & Hc & Hrf & Hno).
+  destruct (L6.develop_state_spec surf teqb tr_surf inv sense sense_tr teqb_sound fuel lk lcl elems s ks s1
+              (Inv_init T surf P (@M6.is_nil R) inv sense s Hf Hc) Hlcl Hnn E) as (_ & Hx & _).
+  destruct (develop_state_plain surf teqb tr_surf _ _ _ _ _ _ Hrf Hno E) as (Hrf1 & _ & _).
+  split; [exact (lat_step_ready _ _ _ _ _ _ (conj Hf (conj Hc (conj Hrf Hno))) E)|].
+  split; [|split; [exact Hx | exact Hrf1]].
+  inversion Hnd as [|? ? Hnin Hnd']; subst. split; [exact Hnd'|].
+  intros lk' elems' Hin. destruct (Hall lk' elems' (or_intror Hin)) as ((lcl' & Hl') & Hnn').
+  split; [|exact Hnn']. exists lcl'.
+  unfold Proofs.del_cell, Proofs.set_cells. cbn [s_cells].
+  rewrite dget_ddel_other; [exact (proj1 Hx _ _ Hl')|].
+  intros ->. apply Hnin. apply in_map_iff. exists (lk, elems'). auto.
+Qed.
+
+Lemma lat_phase_keeps : forall fuel lats (s sd : state),
+  ready s -> lats_ok s lats -> lat_phase fuel lats s = Ok sd ->
+  forall k cl, ~ In k (map fst lats) -> dget k (s_cells s) = Some cl ->
+  dget k (s_cells sd) = Some cl /\ forall p b, Den s p (TRef k) b -> Den sd p (TRef k) b.
+Proof.
+  intros fuel lats. induction lats as [|[lk elems] r IH]; intros s sd Hr Hok H k cl Hnin Hk; cbn in H.
+  - inversion H; subst. auto.
+  - destruct (L6.develop_state surf teqb tr_surf fuel lk elems s) as [[ks s1]|] eqn:E; [|discriminate].
+    destruct (lat_head_step _ _ _ _ _ _ _ Hr Hok E) as (Hr' & Hok' & Hx & Hrf1).
+    assert (Hkl : k <> lk) by (intros ->; apply Hnin; left; reflexivity).
+    assert (Hk' : dget k (s_cells (del_cell T surf s1 lk)) = Some cl).
+    { unfold Proofs.del_cell, Proofs.set_cells. cbn [s_cells]. rewrite dget_ddel_other by exact Hkl.
+      exact (proj1 Hx _ _ Hk). }
+    destruct (IH _ _ Hr' Hok' H k cl (fun Hin => Hnin (or_intror Hin)) Hk') as (A & B).
+    split; [exact A|]. intros p b HD. apply B.
+    apply (Den_del_cell T surf P sense s1 lk p Hrf1 k b Hkl).
+    exact (proj1 (Den_mono T surf P sense s s1 p Hx) _ _ HD).
+Qed.
+
+Theorem lat_phase_elems : forall fuel lats (s sd : state),
+  ready s -> lats_ok s lats -> lat_phase fuel lats s = Ok sd ->
+  forall lk elems lcl, In (lk, elems) lats -> dget lk (s_cells s) = Some lcl ->
+  exists keys, Forall2 (ElemOf surf inv sense s lk lcl sd) elems keys.
+Proof.
+  intros fuel lats. induction lats as [|[lk0 elems0] r IH]; intros s sd Hr Hok H lk elems lcl Hin Hlcl;
+    [destruct Hin|]. cbn in H.
+  destruct (L6.develop_state surf teqb tr_surf fuel lk0 elems0 s) as [[ks s1]|] eqn:E; [|discriminate].
+  destruct (lat_head_step _ _ _ _ _ _ _ Hr Hok E) as (Hr' & Hok' & Hx & Hrf1).
+  set (s' := del_cell T surf s1 lk0) in *.
+  destruct Hin as [Heq|Hin].
+  - inversion Heq; subst lk0 elems0; clear Heq.
+    destruct Hr as (Hf & Hc & Hrf & Hno). destruct Hok as [Hnd Hall].
+    destruct (Hall lk elems (or_introl eq_refl)) as (_ & Hnn).
+    destruct (L6.develop_state_spec surf teqb tr_surf inv sense sense_tr teqb_sound fuel lk lcl elems s ks s1
+                (Inv_init T surf P (@M6.is_nil R) inv sense s Hf Hc) Hlcl Hnn E) as (_ & _ & HF).
+    exists ks. eapply Forall2_imp; [|exact HF].
+    intros e k (cl & Hk & E1 & E2 & E3 & E4 & _ & Hfresh & HD).
+    assert (Hkl : k <> lk) by (intros ->; rewrite Hlcl in Hfresh; discriminate).
+    assert (Hkr : ~ In k (map fst r)).
+    { intros Hin. apply in_map_iff in Hin. destruct Hin as ([lk' el'] & <- & Hin').
+      destruct (Hall lk' el' (or_intror Hin')) as ((c0 & Hc0) & _). cbn in Hfresh.
+      rewrite Hfresh in Hc0. discriminate. }
+    assert (Hk' : dget k (s_cells s') = Some cl).
+    { unfold s', Proofs.del_cell, Proofs.set_cells. cbn [s_cells]. rewrite dget_ddel_other by exact Hkl.
+      exact Hk. }
+    destruct (lat_phase_keeps _ _ _ _ Hr' Hok' H k cl Hkr Hk') as (A & B).
+    exists cl. split; [exact A|]. split; [exact Hkl|].
+    split; [exact E1|]. split; [exact E2|]. split; [exact E3|]. split; [exact E4|]. split.
+    + apply by_universe_complete. apply dget_In. exact A.
+    + intros p b HDl. apply B. apply (Den_del_cell T surf P sense s1 lk p Hrf1 k b Hkl). apply HD. exact HDl.
+  - destruct Hok as [Hnd Hall]. inversion Hnd as [|? ? Hnin _]; subst.
+    assert (Hne : lk <> lk0).
+    { intros ->. apply Hnin. apply in_map_iff. exists (lk0, elems). auto. }
+    assert (Hl' : dget lk (s_cells s') = Some lcl).
+    { unfold s', Proofs.del_cell, Proofs.set_cells. cbn [s_cells]. rewrite dget_ddel_other by exact Hne.
+      exact (proj1 Hx _ _ Hlcl). }
+    destruct (IH _ _ Hr' Hok' H lk elems lcl Hin Hl') as (keys & HF).
+    exists keys. eapply Forall2_imp; [|exact HF].
+    intros e k (cl & A1 & A2 & A3 & A4 & A5 & A6 & A7 & HD).
+    exists cl. repeat (split; [assumption|]).
+    intros p b HDs. apply HD.
+    apply (Den_del_cell T surf P sense s1 lk0 _ Hrf1 lk b Hne).
+    exact (proj1 (Den_mono T surf P sense s s1 _ Hx) _ _ HDs).
+Qed.
+
 End Several.
 
 (* ---- non-vacuity: the hypotheses of the two theorems hold on a concrete run --------------------
